@@ -138,6 +138,7 @@ def run(ctx):
     special_macro_parsers_check_tokens(ctx, "R01-g")
     block_unwrappers_look_at_the_label(ctx, "R01-h")
     synthesised_operators_respect_precedence(ctx, "R01-i")
+    token_bindings_are_consumed(ctx, "R01-j", tab)
     C = r.rule("R01-c", "no defaulted sub-rewrite: a RewriteResult / Option<String> returned by a Rewrite method is never turned into "
                         "an empty string (unwrap_or_default, unwrap_or(String::new()), unwrap_or_else(|_| String::new()))")
     latent = {e["fn"]: e["reason"] for e in tab.get("defaulted", [])}
@@ -436,3 +437,126 @@ def synthesised_operators_respect_precedence(ctx, rid):
                         "convert_try_mac turns `try!(e)` into `e?` for any `e`, and neither it nor the chain code that prints the "
                         "operand consults Expr::precedence: `try!(a + b)` becomes `a + b?`, `try!(-x)` becomes `-x?`", ["%s:%d" % (f.file, line)])
     r.floor(rid, n, 1, "synthesised operator nodes")
+
+
+TOKEN_TYPES = ("rustc_ast::Defaultness", "rustc_ast::Safety", "rustc_ast::Const", "rustc_ast::ImplPolarity", "rustc_ast::Visibility",
+               "rustc_ast::Mutability", "rustc_ast::CoroutineKind", "rustc_ast::BoundPolarity", "rustc_ast::BoundConstness",
+               "rustc_ast::BoundAsyncness", "rustc_ast::Extern")
+
+
+def _token_type(t):
+    t = t.replace("&", "").replace("mut ", "").strip()
+    for lt in ("'a ", "'_ ", "'b ", "'c "):
+        t = t.replace(lt, "")
+    for x in TOKEN_TYPES:
+        if t == x or t == "std::option::Option<%s>" % x:
+            return x.rsplit("::", 1)[-1]
+    return None
+
+
+def _reads_of(f, l):
+    """blocks in which local l is read: operand or place base of an assignment, call argument, switch operand"""
+    from common import rvalue_operands, rvalue_places
+    out = set()
+    for bb, i, s in f.stmts():
+        if s[0] == "=":
+            for op in rvalue_operands(s[2]):
+                if op[0] != "k" and op[1][0] == l:
+                    out.add(bb)
+            for pl in rvalue_places(s[2]):
+                if pl[0] == l:
+                    out.add(bb)
+    for c in f.calls():
+        for a in c.args:
+            if a[0] != "k" and a[1][0] == l:
+                out.add(c.bb)
+    for bb in range(len(f.blocks)):
+        t = f.term(bb)
+        if t[0] == "switch" and t[1][0] != "k" and t[1][1][0] == l:
+            out.add(bb)
+    return out
+
+
+def token_bindings_are_consumed(ctx, rid, tab):
+    """R01-j: a modifier keyword that a rewriter holds in a variable reaches the output on every path that prints the node"""
+    import c17
+    p, r = ctx.p, ctx.r
+    r.rule(rid, "a binding of a token-bearing AST type (%s, or an Option of one) — a parameter, or a local initialised from a field "
+                "of an AST node — is the only way its keyword reaches the output of the function that holds it.  On every path "
+                "from the binding to a non-error return on which a rewriter is called (the node is being printed), the binding or a "
+                "copy / borrow of it is read (passed on, matched, formatted).  A path that prints the node and never looks at the "
+                "binding prints the node without the keyword: `default fn f();`, `pub default type X;`.  Exceptions — a path on "
+                "which the node kind has no such token — are listed in tables/C01.toml [[token_binding_exception]] by function "
+                "and variable name" % ", ".join(t.rsplit("::", 1)[-1] for t in TOKEN_TYPES))
+    exc = {(e["function"], e["variable"]): e["reason"] for e in tab.get("token_binding_exception", [])}
+    used_exc = set()
+    n = 0
+    for f in p.by_crate["rustfmt_nightly"]:
+        if f.kind == "Closure":
+            continue
+        cands = []
+        for l in range(1, f.argc + 1):
+            ty = _token_type(f.locals[l])
+            if ty:
+                cands.append((l, 0, "parameter", ty))
+        for l, lty in enumerate(f.locals):
+            ty = _token_type(lty)
+            if l <= f.argc or not ty:
+                continue
+            d = f.single_def(l)
+            if not d or d[1] != "assign" or d[2][2][0] not in ("use", "ref", "cfd"):
+                continue
+            rv = d[2][2]
+            pl = None
+            if rv[0] == "use" and rv[1][0] != "k":
+                pl = rv[1][1]
+            elif rv[0] == "ref":
+                pl = rv[2]
+            elif rv[0] == "cfd":
+                pl = rv[1]
+            if pl and any(isinstance(e, list) and e[0] == "f" for e in pl[1]):
+                cands.append((l, d[0], "field binding", ty))
+        if not cands:
+            continue
+        fmt_bbs = {c.bb for c in f.calls() if c17.formatter(c) or c.name.endswith("push_str")}
+        errb = {c.bb for c in f.calls() if (c.declared or "") == "std::ops::FromResidual::from_residual"} | {
+            bb for bb, i, st in f.stmts() if st[0] == "=" and st[1][0] == 0 and st[2][0] == "agg" and isinstance(st[2][1], list)
+            and st[2][1][0] == "adt" and st[2][1][2] in ("Err", "None")}
+        for (l, start, kind, ty) in cands:
+            name = f.local_names.get(l)
+            if not name:
+                continue        # compiler temporaries: their reads are the reads of the named binding they copy
+            u = _reads_of(f, l)
+            work, seen = [l], {l}
+            while work:
+                x = work.pop()
+                for bb, i, s in f.stmts():
+                    if s[0] == "=" and s[2][0] in ("use", "ref", "cfd") and not s[1][1] and s[1][0] != 0:
+                        src = s[2][1] if s[2][0] == "use" else (["c", s[2][2]] if s[2][0] == "ref" else ["c", s[2][1]])
+                        if src[0] != "k" and src[1][0] == x and not src[1][1] and s[1][0] not in seen:
+                            seen.add(s[1][0])
+                            work.append(s[1][0])
+                            u |= _reads_of(f, s[1][0])
+            n += 1
+            label = "%s: %s `%s` (%s)" % (short(f.id), kind, name, ty)
+            bad = []
+            if start not in u:
+                reach = f.reachable(start, avoid_blocks=u | errb)
+                if any(b in reach for b in f.returns()):
+                    bad = sorted({short(c.name).rsplit("::", 1)[-1] for c in f.calls() if c.bb in fmt_bbs and c.bb in reach})
+            key = (short(f.id), name)
+            if bad and key in exc:
+                used_exc.add(key)
+                r.instance(rid, label, "ok", "%s:%d" % (f.file, f.line), "exception: %s" % exc[key])
+                continue
+            r.instance(rid, label, "violation" if bad else "ok", "%s:%d" % (f.file, f.line),
+                       "read on every printing path" if not bad else "unread on a path calling %s" % ", ".join(bad[:4]))
+            if bad:
+                r.violation(rid, "%s prints the node on a path that never reads `%s` (%s)" % (short(f.id), name, ty),
+                            "there is a path from the binding to a successful return that calls %s and reads neither `%s` nor a copy "
+                            "of it: the %s keyword of the node is not printed on that path" % (", ".join(bad[:4]), name, ty),
+                            ["%s:%d" % (f.file, f.line)])
+    for key in exc:
+        if key not in used_exc:
+            r.note("%s: exception %s / %s in tables/C01.toml is no longer needed" % ((rid,) + key))
+    r.floor(rid, n, 20, "named token-bearing bindings")
